@@ -308,6 +308,8 @@ func TestVerifC12Twin(t *testing.T) {
 			content.set("/hp_adult", a)
 		}
 		render()
+		var hookMu sync.Mutex
+		var hook func()
 		srv := httptest.NewServer(http.HandlerFunc(func(rw http.ResponseWriter, r *http.Request) {
 			p := r.URL.Path
 			if p == "/index.json" {
@@ -316,6 +318,14 @@ func TestVerifC12Twin(t *testing.T) {
 					{"filterKey": "c12_l1", "downloadUrl": base + "/lists/1"}, {"filterKey": "c12_l2", "downloadUrl": base + "/lists/2"}}})
 				_, _ = rw.Write(ij)
 				return
+			}
+			// a request that arrives WHILE the storage is being refreshed (between the download of one
+			// list and the moment the refreshed set is put into service)
+			hookMu.Lock()
+			h := hook
+			hookMu.Unlock()
+			if h != nil {
+				h()
 			}
 			_, _ = rw.Write([]byte(content.get(p)))
 		}))
@@ -396,14 +406,30 @@ func TestVerifC12Twin(t *testing.T) {
 					f := tw.s.ForConfig(ctx, p.conf)
 					fr := &filter.Request{DNS: req, Messages: p.msgs, RemoteIP: netip.MustParseAddr("192.0.2.9"), ClientName: "dev-" + p.id,
 						Host: q.Host, QType: q.QType, QClass: dns.ClassINET}
-					res, ferr := f.FilterRequest(ctx, fr)
-					a := c12AbsResult(req, res, ferr)
+					a, ra := "", ""
+					func() {
+						// a panic of the filter is an observation about the code, not a failure of the harness
+						defer func() {
+							if v := recover(); v != nil {
+								a = fmt.Sprintf("panic|%v", v)
+							}
+						}()
+						res, ferr := f.FilterRequest(ctx, fr)
+						a = c12AbsResult(req, res, ferr)
+					}()
 					// response side: an upstream answer with a CNAME into the lists
 					resp := new(dns.Msg).SetReply(req)
 					resp.Answer = append(resp.Answer, &dns.CNAME{Hdr: dns.RR_Header{Name: dns.Fqdn(q.Host), Rrtype: dns.TypeCNAME, Class: dns.ClassINET, Ttl: 60},
 						Target: "b2.c12.example."})
-					rres, rerr := f.FilterResponse(ctx, &filter.Response{DNS: resp, RemoteIP: fr.RemoteIP, ClientName: fr.ClientName})
-					ra := c12AbsResult(req, rres, rerr)
+					func() {
+						defer func() {
+							if v := recover(); v != nil {
+								ra = fmt.Sprintf("panic|%v", v)
+							}
+						}()
+						rres, rerr := f.FilterResponse(ctx, &filter.Response{DNS: resp, RemoteIP: fr.RemoteIP, ClientName: fr.ClientName})
+						ra = c12AbsResult(req, rres, rerr)
+					}()
 					if tw.plain {
 						ev.Plain, ev.PlainR = a, ra
 					} else {
@@ -422,7 +448,30 @@ func TestVerifC12Twin(t *testing.T) {
 					if what == "dangerous" || what == "adult" {
 						err = tw.hp[what].Refresh(rctx)
 					} else {
+						if !tw.plain && rng.Intn(2) == 0 {
+							// queries for every host served in the middle of this refresh: whatever they are
+							// answered, nothing computed now may be served once Refresh has returned
+							st := tw.s
+							hookMu.Lock()
+							hook = func() {
+								for _, p := range profs {
+									f := st.ForConfig(ctx, p.conf)
+									for _, h := range hosts {
+										req := new(dns.Msg).SetQuestion(dns.Fqdn(h), dns.TypeA)
+										func() {
+											defer func() { _ = recover() }()
+											_, _ = f.FilterRequest(ctx, &filter.Request{DNS: req, Messages: p.msgs, RemoteIP: netip.MustParseAddr("192.0.2.9"),
+												ClientName: "dev-" + p.id, Host: h, QType: dns.TypeA, QClass: dns.ClassINET})
+										}()
+									}
+								}
+							}
+							hookMu.Unlock()
+						}
 						err = tw.s.Refresh(rctx)
+						hookMu.Lock()
+						hook = nil
+						hookMu.Unlock()
 					}
 					cancel()
 					if err != nil {
